@@ -14,6 +14,9 @@ pub struct FmtCase {
     pub off: Option<i32>,
     /// build the DateTime from the instant (from_timespec_and_local) instead of from fields
     pub via_timespec: bool,
+    /// the local time type carries a designation / the DST flag (0 none, 1 designation, 2 DST flag, 3 both)
+    #[serde(default)]
+    pub flavour: u8,
 }
 
 #[derive(Debug, PartialEq)]
@@ -141,7 +144,13 @@ pub fn check_fmt(c: &FmtCase, st: &mut Stats) -> Result<(), String> {
             (d.to_string(), (f.y as i64, f.mo as u32, f.d as u32, f.h as u32, f.mi as u32, f.s as u32, f.ns), 0)
         }
         Some(off) => {
-            let ltt = LocalTimeType::with_ut_offset(off).map_err(|e| format!("{e:?}"))?;
+            let ltt = match c.flavour % 4 {
+                0 => LocalTimeType::with_ut_offset(off),
+                1 => LocalTimeType::new(off, false, Some(b"GMT")),
+                2 => LocalTimeType::new(off, true, None),
+                _ => LocalTimeType::new(off, true, Some(b"BST")),
+            }
+            .map_err(|e| format!("{e:?}"))?;
             let d = if c.via_timespec {
                 // instant whose local fields are (about) f: unix = civil - off
                 let u = f.civil_secs() - off as i128;
@@ -201,7 +210,7 @@ pub fn check_fmt(c: &FmtCase, st: &mut Stats) -> Result<(), String> {
     st.class(cls);
     let year = fields.0;
     if (off < 0 && off > -3600) || off % 60 != 0 || year < 0 || year > 9999 || year.abs() < 1000 {
-        st.nontrivial(&(c.f, c.off, c.via_timespec));
+        st.nontrivial(&(c.f, c.off, c.via_timespec, c.flavour));
     }
     if st.wants_sample(cls) {
         st.sample(cls, || json!({"case": c, "text": text}));
@@ -231,7 +240,7 @@ pub fn run(ctx: &Ctx) -> Outcome {
         }
         for off in offs {
             for via in [false, true] {
-                let c = FmtCase { f: f0, off: Some(off), via_timespec: via };
+                let c = FmtCase { f: f0, off: Some(off), via_timespec: via, flavour: (off.unsigned_abs() % 4) as u8 };
                 check_enum("fmt", &c, st, check_fmt)?;
             }
         }
@@ -254,7 +263,9 @@ pub fn run(ctx: &Ctx) -> Outcome {
         for f in fs {
             for off in [None, Some(0), Some(1), Some(-1), Some(59), Some(-59), Some(3600), Some(-3600), Some(86_399), Some(-86_399), Some(i32::MAX), Some(i32::MIN + 1)] {
                 for via in [false, true] {
-                    check_enum("fmt", &FmtCase { f, off, via_timespec: via }, st, check_fmt)?;
+                    for flavour in 0..4u8 {
+                        check_enum("fmt", &FmtCase { f, off, via_timespec: via, flavour }, st, check_fmt)?;
+                    }
                 }
             }
         }
@@ -265,7 +276,7 @@ pub fn run(ctx: &Ctx) -> Outcome {
         return out;
     }
     let cases = ctx.tier.pick(60_000u32, 5_000_000u32);
-    let strat = (gens::arb_valid_fields(), prop_oneof![1 => Just(None), 5 => arb_offset().prop_map(Some)], any::<bool>()).prop_map(|(f, off, via_timespec)| FmtCase { f, off, via_timespec });
+    let strat = (gens::arb_valid_fields(), prop_oneof![1 => Just(None), 5 => arb_offset().prop_map(Some)], any::<bool>(), 0u8..4).prop_map(|(f, off, via_timespec, flavour)| FmtCase { f, off, via_timespec, flavour });
     let rs = par_shards(16, |shard, st| pt_shard(ctx, "fmt", shard, cases, &strat, st, check_fmt));
     out.absorb_all(rs);
     out
